@@ -1,1 +1,2 @@
 pub mod engines;
+pub mod fuzz;
